@@ -271,13 +271,55 @@ func runC17(c *Ctx) {
 		for _, seal := range seals {
 			nonce := seal.Call.Args[2] // *[24]byte alloc
 			var rf *ssa.Call
-			for _, call := range callsNamed(enc, "ReadFull") {
-				if sl, ok := call.Call.Args[1].(*ssa.Slice); ok && sl.X == nonce && sl.Low == nil && sl.High == nil {
-					if mi, ok := call.Call.Args[0].(*ssa.UnOp); ok {
-						if g, ok := mi.X.(*ssa.Global); ok && g.Name() == "prng" {
-							rf = call
-						}
+			fromPrng := func(call *ssa.Call) bool {
+				if mi, ok := call.Call.Args[0].(*ssa.UnOp); ok {
+					if g, ok := mi.X.(*ssa.Global); ok && g.Name() == "prng" {
+						return true
 					}
+				}
+				return false
+			}
+			// a private part `readRandom(buf) error` that fills its whole argument by io.ReadFull from the package's
+			// random source and returns that call's error
+			randomFiller := func(h *ssa.Function) bool {
+				if h == nil || len(h.Blocks) == 0 || h.Object() == nil || h.Object().Exported() || fnPkgPath(h) != fnPkgPath(enc) || len(h.Params) != 1 {
+					return false
+				}
+				var inner *ssa.Call
+				for _, call := range callsNamed(h, "ReadFull") {
+					if prm, ok := call.Call.Args[1].(*ssa.Parameter); ok && prm == h.Params[0] && fromPrng(call) {
+						inner = call
+					}
+				}
+				if inner == nil {
+					return false
+				}
+				for _, b := range h.Blocks {
+					r, ok := b.Instrs[len(b.Instrs)-1].(*ssa.Return)
+					if !ok {
+						continue
+					}
+					ex, ok := effectiveResult(r, len(r.Results)-1).(*ssa.Extract)
+					if !ok || ex.Tuple != ssa.Value(inner) || ex.Index != 1 {
+						return false
+					}
+				}
+				return true
+			}
+			viaPart := false
+			for _, ci := range callsOf(enc) {
+				call, ok := ci.(*ssa.Call)
+				if !ok || len(call.Call.Args) == 0 {
+					continue
+				}
+				isRF := calleeShort(&call.Call) == "ReadFull" && len(call.Call.Args) == 2 && fromPrng(call)
+				isPart := !isRF && randomFiller(call.Call.StaticCallee())
+				if !isRF && !isPart {
+					continue
+				}
+				buf := call.Call.Args[len(call.Call.Args)-1]
+				if sl, ok := buf.(*ssa.Slice); ok && sl.X == nonce && sl.Low == nil && sl.High == nil {
+					rf, viaPart = call, isPart
 				}
 			}
 			c.Check("C17-R2", "nonce-filled-from-random-source", seal.Pos(), rf != nil, "the nonce passed to secretbox.Seal is not filled completely by io.ReadFull from the package random source")
@@ -287,6 +329,9 @@ func runC17(c *Ctx) {
 					f := edgeFactOf(from, si)
 					if f == nil || f.Kind != "nil" {
 						return false
+					}
+					if viaPart {
+						return loadIsResultOf(f.V, rf)
 					}
 					ex, ok := f.V.(*ssa.Extract)
 					return ok && ex.Tuple == ssa.Value(rf) && ex.Index == 1
@@ -351,9 +396,25 @@ func runC17(c *Ctx) {
 	}
 	// ---------- R3 DeriveKey ----------
 	if dk := snaclMethod(c, "C17-R3", "SecretKey", "DeriveKey"); dk != nil {
-		cmps := callsNamed(dk, "ConstantTimeCompare")
+		// the digest comparison(s) DeriveKey decides by: in DeriveKey itself or in a private part that answers true
+		// exactly when the comparison returned 1; `at` is the instruction in DeriveKey that stands for it
+		type cmpSite struct {
+			at  ssa.Instruction
+			cmp *ssa.Call
+		}
+		var cmps []cmpSite
+		seenCmp := map[*ssa.Call]bool{}
+		for _, b := range dk.Blocks {
+			for si := range b.Succs {
+				if at, cmp, ok := digestMatchEdge(p, b, si); ok && !seenCmp[cmp] {
+					seenCmp[cmp] = true
+					cmps = append(cmps, cmpSite{at, cmp})
+				}
+			}
+		}
 		c.Floor("C17-R3", "constant-time comparisons in DeriveKey", len(cmps), 1)
-		for _, cmp := range cmps {
+		for _, cs := range cmps {
+			cmp := cs.cmp
 			for _, b := range dk.Blocks {
 				for _, ins := range b.Instrs {
 					r, ok := ins.(*ssa.Return)
@@ -361,22 +422,46 @@ func runC17(c *Ctx) {
 						continue
 					}
 					okG := !reachableAvoiding(dk, nil, r, func(from *ssa.BasicBlock, si int) bool {
-						iff, ok := from.Instrs[len(from.Instrs)-1].(*ssa.If)
-						if !ok {
-							return false
-						}
-						f, okf := p.cmpForm(iff.Cond, si == 0)
-						if !okf || f.Rel != "==" || len(f.L.Coef) != 1 || f.L.Konst != -1 {
-							return false
-						}
-						b, _ := unwrapNot(iff.Cond)
-						bo, ok := b.(*ssa.BinOp)
-						return ok && (bo.X == ssa.Value(cmp) || bo.Y == ssa.Value(cmp))
+						_, c2, ok := digestMatchEdge(p, from, si)
+						return ok && c2 == cmp
 					})
 					c.Check("C17-R3", "nil-only-if-digest-matches", r.Pos(), okG, "DeriveKey can return nil without the digest comparison having returned 1")
 				}
 			}
-			// both operands whole-array slices; one from Sum256(Key[:]), other field Digest
+			// both operands whole-array slices; one from Sum256(Key[:]) (directly or through a private part that returns
+			// exactly that), other field Digest
+			isKeySum := func(v ssa.Value) bool {
+				call, ok := v.(*ssa.Call)
+				if !ok {
+					return false
+				}
+				if calleeShort(&call.Call) == "Sum256" {
+					ks, ok := call.Call.Args[0].(*ssa.Slice)
+					return ok && ks.Low == nil && ks.High == nil
+				}
+				h := call.Call.StaticCallee()
+				if h == nil || len(h.Blocks) != 1 || h.Object() == nil || h.Object().Exported() || !strings.HasSuffix(fnPkgPath(h), "/snacl") {
+					return false
+				}
+				r, ok := h.Blocks[0].Instrs[len(h.Blocks[0].Instrs)-1].(*ssa.Return)
+				if !ok || len(r.Results) != 1 {
+					return false
+				}
+				inner, ok := r.Results[0].(*ssa.Call)
+				if !ok || calleeShort(&inner.Call) != "Sum256" {
+					return false
+				}
+				ks, ok := inner.Call.Args[0].(*ssa.Slice)
+				if !ok || ks.Low != nil || ks.High != nil {
+					return false
+				}
+				_, f, _, okf := fieldOf(ks.X)
+				if fa, isFA := ks.X.(*ssa.FieldAddr); isFA {
+					_, f = fieldAddrName(fa)
+					okf = true
+				}
+				return okf && f == "Key"
+			}
 			full := func(v ssa.Value) (string, bool) {
 				sl, ok := v.(*ssa.Slice)
 				if !ok || sl.Low != nil || sl.High != nil || sl.Max != nil {
@@ -385,10 +470,8 @@ func runC17(c *Ctx) {
 				switch x := sl.X.(type) {
 				case *ssa.Alloc:
 					for _, st := range storesTo(x) {
-						if call, ok := st.Val.(*ssa.Call); ok && calleeShort(&call.Call) == "Sum256" {
-							if ks, ok := call.Call.Args[0].(*ssa.Slice); ok && ks.Low == nil && ks.High == nil {
-								return "sum256(key)", true
-							}
+						if isKeySum(st.Val) {
+							return "sum256(key)", true
 						}
 					}
 				case *ssa.FieldAddr:
@@ -405,9 +488,9 @@ func runC17(c *Ctx) {
 			dks := callsNamed(dk, "deriveKey")
 			okD := len(dks) == 1
 			if okD {
-				okD = !reachableAvoiding(dk, nil, cmp, func(from *ssa.BasicBlock, si int) bool {
+				okD = !reachableAvoiding(dk, nil, cs.at, func(from *ssa.BasicBlock, si int) bool {
 					f := edgeFactOf(from, si)
-					return f != nil && f.Kind == "nil" && f.V == ssa.Value(dks[0])
+					return f != nil && f.Kind == "nil" && loadIsResultOf(f.V, dks[0])
 				})
 			}
 			c.Check("C17-R3", "compare-after-successful-derivation", cmp.Pos(), okD, "the digest is compared although key derivation failed or did not run")
@@ -930,6 +1013,19 @@ func checkInvalidPasswordOnlyOnDigestMismatch(c *Ctx, rule string) {
 		}
 		return isResultOfCall(bo.X, "ConstantTimeCompare", -1) || isResultOfCall(bo.Y, "ConstantTimeCompare", -1)
 	}
+	mismatch0 := mismatch
+	mismatch = func(from *ssa.BasicBlock, si int) bool {
+		if mismatch0(from, si) {
+			return true
+		}
+		// the comparison lives in a private part that answers true exactly on a match: its false edge
+		if ef := edgeFactOf(from, si); ef != nil && ef.Kind == "false" {
+			if hc, ok := ef.V.(*ssa.Call); ok && digestMatcher(c.P, hc.Call.StaticCallee()) != nil {
+				return true
+			}
+		}
+		return false
+	}
 	n := 0
 	for _, b := range dk.Blocks {
 		r, ok := b.Instrs[len(b.Instrs)-1].(*ssa.Return)
@@ -1132,4 +1228,81 @@ func checkCryptoKeyHoldersAreDistinct(c *Ctx, rule string) {
 			fnName(fn)+" gives the manager's "+shared+" one and the same key object: once one of them is filled in place (Unlock), data sealed under one key class opens under the other")
 	}
 	c.Floor(rule, "functions installing the manager's crypto keys", n, 1)
+}
+
+// digestMatcher: a private bool method/function of the snacl package that answers true exactly on the edge (or as the
+// value) of `subtle.ConstantTimeCompare(...) == 1`: the comparison moved into a part. Returns the comparison call.
+func digestMatcher(p *Program, h *ssa.Function) *ssa.Call {
+	if h == nil || len(h.Blocks) == 0 || h.Object() == nil || h.Object().Exported() || !strings.HasSuffix(fnPkgPath(h), "/snacl") {
+		return nil
+	}
+	res := h.Signature.Results()
+	if res.Len() != 1 || !isBoolType(res.At(0).Type()) {
+		return nil
+	}
+	var cmp *ssa.Call
+	for _, call := range callsNamed(h, "ConstantTimeCompare") {
+		cmp = call
+	}
+	if cmp == nil {
+		return nil
+	}
+	isMatch := func(v ssa.Value, val bool) bool {
+		f, ok := p.cmpForm(v, val)
+		if !ok || f.Rel != "==" || len(f.L.Coef) != 1 || f.L.Konst != -1 {
+			return false
+		}
+		inner, _ := unwrapNot(v)
+		bo, ok := inner.(*ssa.BinOp)
+		return ok && (bo.X == ssa.Value(cmp) || bo.Y == ssa.Value(cmp))
+	}
+	// no return that can be true is reachable without the match (as its value, or as a guarding edge)
+	q := &PathQuery{Fn: h}
+	q.EdgeBarrier = func(from *ssa.BasicBlock, si int) bool {
+		iff, ok := from.Instrs[len(from.Instrs)-1].(*ssa.If)
+		return ok && isMatch(iff.Cond, si == 0)
+	}
+	q.Target = func(i ssa.Instruction, _ *ssa.BasicBlock) bool {
+		r, ok := i.(*ssa.Return)
+		if !ok {
+			return false
+		}
+		v := effectiveResult(r, 0)
+		if bv, isC := constBool(v); isC {
+			return bv
+		}
+		return !isMatch(v, true)
+	}
+	if len(q.From(nil)) > 0 {
+		return nil
+	}
+	return cmp
+}
+
+// digestMatchEdge: the edge of fn on which the digest comparison returned 1 — `ConstantTimeCompare(..) == 1` tested in fn
+// itself, or the true edge of a call of a digestMatcher part. Also returns the instruction in fn that stands for the
+// comparison (the call itself, or the call of the part).
+func digestMatchEdge(p *Program, from *ssa.BasicBlock, si int) (ssa.Instruction, *ssa.Call, bool) {
+	iff, ok := from.Instrs[len(from.Instrs)-1].(*ssa.If)
+	if !ok {
+		return nil, nil, false
+	}
+	if f, okf := p.cmpForm(iff.Cond, si == 0); okf && f.Rel == "==" && len(f.L.Coef) == 1 && f.L.Konst == -1 {
+		inner, _ := unwrapNot(iff.Cond)
+		if bo, ok := inner.(*ssa.BinOp); ok {
+			for _, side := range []ssa.Value{bo.X, bo.Y} {
+				if call, ok := side.(*ssa.Call); ok && calleeShort(&call.Call) == "ConstantTimeCompare" {
+					return call, call, true
+				}
+			}
+		}
+	}
+	if ef := edgeFactOf(from, si); ef != nil && ef.Kind == "true" {
+		if hc, ok := ef.V.(*ssa.Call); ok {
+			if cmp := digestMatcher(p, hc.Call.StaticCallee()); cmp != nil {
+				return hc, cmp, true
+			}
+		}
+	}
+	return nil, nil, false
 }
